@@ -142,7 +142,7 @@ func (h *genericContextualizer) Execute(ctx heimdall.Context, sub *subject.Subje
 	}
 
 	if h.ttl > 0 {
-		cacheKey = h.calculateCacheKey(sub, vals, payload)
+		cacheKey = h.calculateCacheKey(ctx, sub, vals, payload)
 		if entry, err := cch.Get(ctx.AppContext(), cacheKey); err == nil {
 			var cd contextualizerData
 
@@ -353,6 +353,7 @@ func (h *genericContextualizer) readResponse(ctx heimdall.Context, resp *http.Re
 }
 
 func (h *genericContextualizer) calculateCacheKey(
+	ctx heimdall.Context,
 	sub *subject.Subject,
 	values map[string]string,
 	payload string,
@@ -367,6 +368,24 @@ func (h *genericContextualizer) calculateCacheKey(
 	hash.Write(stringx.ToBytes(h.id))
 	hash.Write(stringx.ToBytes(strings.Join(h.fwdHeaders, ",")))
 	hash.Write(stringx.ToBytes(strings.Join(h.fwdCookies, ",")))
+
+	// the values of the forwarded headers and cookies are part of the request sent to
+	// the endpoint. So, the response may depend on them.
+	if len(h.fwdHeaders) != 0 || len(h.fwdCookies) != 0 {
+		request := ctx.Request()
+
+		for _, headerName := range h.fwdHeaders {
+			hash.Write([]byte{0})
+			hash.Write(stringx.ToBytes(request.Header(headerName)))
+		}
+
+		for _, cookieName := range h.fwdCookies {
+			hash.Write([]byte{0})
+			hash.Write(stringx.ToBytes(request.Cookie(cookieName)))
+		}
+
+		hash.Write([]byte{0})
+	}
 	hash.Write(stringx.ToBytes(payload))
 	hash.Write(ttlBytes)
 	hash.Write(sub.Hash())
